@@ -126,7 +126,10 @@ def check(ctx):
         ec = ctx.one_call(lb, f"{IMP}::execute_and_commit")
         # the result reaches `match &res` through tokio::select!, so the Ok/Err test is identified as
         # the Result switch whose Ok edge dominates `done.push(())`
-        pushes = [c for c in lb.calls_to("alloc::vec::Vec::push") if atom_match(Origins(lb, 0).atoms(c.args[0]), "local:done")]
+        def _unit(op):
+            ds = Origins(lb, 0).direct_def(op)
+            return bool(ds) and all(d[0] == "assign" and d[4].get("k") == "agg" and d[4].get("ak") == "tuple" and not d[4].get("ops") for d in ds)
+        pushes = [c for c in lb.calls_to("alloc::vec::Vec::push") if c.bb in lb.live and _unit(c.args[1])]      # done.push(()) — the per-block success marker
         ctx.expect_sites("4.done-push", pushes, exactly=1, what="done.push(()) for a successfully executed block")
         from core import Switch
         rs = []
